@@ -445,6 +445,86 @@ def family_prefix_names(thorough):
                                ns('main', {}, [wf('main', [], [steps[i] for i in order]), Wp], [P, CC]))
 
 
+# ---------------------------------------------------------------------------------------------- family: every field
+def rich_component(name='R'):
+    """a component template that uses a parameter in every field that accepts parameter references"""
+    params = [('exe', 'run.sh'), ('interp', 'bash'), ('a', 'A'), ('env', {'K': 'v'}), ('flag', 'false'),
+              ('expand', 'none'), ('n', 2), ('mem', '1Gi'), ('backend', 'kubernetes'), ('wall', 30),
+              ('img', 'repo/img:1'), ('qos', 'guaranteed'), ('hook', 'hook.py'), ('policy', 'Never'), ('q', 'batch'),
+              ('reason', 'KnownIssue')]
+    c = comp(name, params, 'x %(a)s -n %(n)s')
+    c['command'].update({'executable': '%(exe)s', 'interpreter': '%(interp)s', 'environment': '%(env)s',
+                         'resolvePath': '%(flag)s', 'expandArguments': '%(expand)s'})
+    c['workflowAttributes'] = {
+        'restartHookFile': '%(hook)s', 'aggregate': '%(flag)s', 'replicate': '%(n)s', 'repeatInterval': '%(n)s',
+        'maxRestarts': '%(n)s', 'restartHookOn': ['%(reason)s'], 'shutdownOn': ['%(reason)s'],
+        'memoization': {'disable': {'strong': '%(flag)s', 'fuzzy': '%(flag)s'}, 'embeddingFunction': '%(a)s'}}
+    c['resourceRequest'] = {'numberProcesses': '%(n)s', 'ranksPerNode': '%(n)s', 'numberThreads': '%(n)s',
+                            'threadsPerCore': '%(n)s', 'memory': '%(mem)s', 'gpus': '%(n)s'}
+    c['resourceManager'] = {
+        'config': {'backend': '%(backend)s', 'walltime': '%(wall)s'},
+        'kubernetes': {'image': '%(img)s', 'qos': '%(qos)s', 'cpuUnitsPerCore': '%(n)s', 'gracePeriod': '%(n)s'},
+        'docker': {'image': '%(img)s', 'imagePullPolicy': '%(policy)s', 'platform': '%(a)s'},
+        'lsf': {'queue': '%(q)s', 'resourceString': '%(a)s', 'reservation': '%(a)s'}}
+    c['variables'] = {'v': 'pre-%(a)s', 'w': 'lit'}
+    return c
+
+
+def family_every_field(thorough):
+    """one component template with a parameter reference in every field that accepts one (command.*, workflowAttributes.*,
+    resourceRequest.*, resourceManager.*, variables): all parameters defaulted / all given by the workflow / all
+    forwarded from the entrypoint through two workflow levels. Representatives: the mutation 'reference to a parameter
+    that does not exist' is then applied to every one of these fields."""
+    R = rich_component()
+    given = {'exe': 'other.sh', 'interp': 'sh', 'a': 'B', 'env': {'K': 'w', 'L': 1}, 'flag': 'true', 'expand': 'double-quote',
+             'n': 3, 'mem': '2Gi', 'backend': 'docker', 'wall': 45, 'img': 'repo/other:2', 'qos': 'burstable',
+             'hook': 'other.py', 'policy': 'Always', 'q': 'long', 'reason': 'ResourceExhausted'}
+    yield item('every-field', 'all-defaulted', ns('main', {}, [wf('main', [], [('r', 'R', {})])], [R]), rep=True)
+    yield item('every-field', 'all-given', ns('main', {}, [wf('main', [], [('r', 'R', dict(given))])], [R]), rep=True)
+    params = [(k, NODEF) for k in given]
+    fwd = dict((k, '%%(%s)s' % k) for k in given)
+    Wa = wf('Wa', params, [('r', 'R', dict(fwd))])
+    main = wf('main', params, [('w', 'Wa', dict(fwd)), ('r', 'R', {'a': 'top-%(a)s'})])
+    yield item('every-field', 'all-forwarded', ns('main', dict(given), [main, Wa], [R]), rep=True)
+    yield item('every-field', 'entry-is-component', ns('R', dict(given), [], [R]), rep=True)
+
+
+# ---------------------------------------------------------------------------------------------- family: entry override
+def family_entry_override(thorough):
+    """arguments of the entry instance given partly by entrypoint.execute[0].args and partly through
+    namespace_to_flowir(..., override_entrypoint_args=...): every split of three parameters (a, b with a default, c
+    without) into {neither, entrypoint only, override only, both}, the entry instance being a workflow (forwarding to a
+    component one and two levels down) or a component; plus no / empty override and an override naming an unknown
+    parameter. A split that leaves c without a value is an invalid namespace."""
+    T = comp('T', [('a', 'dTa'), ('b', 'dTb'), ('c', NODEF)], 'a=%(a)s b=%(b)s c=%(c)s')
+    Wa = wf('Wa', [('a', 'dWa'), ('c', NODEF)], [('t', 'T', {'a': '%(a)s', 'c': 'in-%(c)s'})])
+    main = wf('main', [('a', 'dMa'), ('b', 'dMb'), ('c', NODEF)],
+              [('t', 'T', {'a': '%(a)s', 'b': '%(b)s', 'c': '%(c)s'}), ('w', 'Wa', {'a': '%(b)s', 'c': '%(a)s+%(c)s'})])
+    shapes = (('workflow', lambda ea: ns('main', ea, [main, Wa], [T])), ('component', lambda ea: ns('T', ea, [], [T])))
+    states = ('neither', 'entry', 'override', 'both')
+    for shape, build in shapes:
+        for sa, sb, sc in itertools.product(states, repeat=3):
+            ea, ov = {}, {}
+            for name, st in (('a', sa), ('b', sb), ('c', sc)):
+                if st in ('entry', 'both'):
+                    ea[name] = 'E' + name
+                if st in ('override', 'both'):
+                    ov[name] = ('O' + name) if name != 'b' else 7
+            it = item('entry-override', '%s:%s-%s-%s' % (shape, sa, sb, sc), build(ea))
+            it['expect'] = 'invalid' if sc == 'neither' else 'valid'
+            if ov:
+                it['override'] = ov
+                yield it
+            else:
+                for label, o in (('none', None), ('empty', {})):
+                    it2 = dict(it, id=it['id'] + ':' + label, override=o)
+                    yield it2
+        it = item('entry-override', '%s:unknown-parameter-in-override' % shape, build({'a': 'Ea', 'c': 'Ec'}))
+        it['override'] = {'b': 'Ob', 'zz': 'v'}
+        it['expect'] = 'invalid'
+        yield it
+
+
 # ---------------------------------------------------------------------------------------------- family: cycles
 def family_cycles(thorough):
     """hand-written invalid namespaces that single-site mutations cannot reach: data-flow cycles between steps"""
@@ -463,6 +543,19 @@ HANG_PRONE = ('rename-segment', 'drop-segment')
 _REF = re.compile(r'<([^<>]*)>')
 _PARAM = re.compile(r'%\(([A-Za-z0-9_.-]+)\)s')
 _METHOD = re.compile(r':(ref|copy|output|link|extract)\b')
+
+
+def _string_leaves(prefix, value):
+    if isinstance(value, dict):
+        for k in value:
+            for p in _string_leaves(prefix + [k], value[k]):
+                yield p
+    elif isinstance(value, list):
+        for i, v in enumerate(value):
+            for p in _string_leaves(prefix + [i], v):
+                yield p
+    elif isinstance(value, str):
+        yield prefix
 
 
 def _templates(doc):
@@ -512,11 +605,18 @@ def mutations(doc, heavy=True):
                 dict(_execs(d))[site]['args'][k] = _PARAM.sub('%(zz)s', v, count=1)
                 yield 'unknown-parameter-reference', list(site) + [k], d
     for i, c in enumerate(doc.get('components') or []):
-        a = c['command'].get('arguments')
-        if isinstance(a, str) and _PARAM.search(a):
-            d = clone()
-            d['components'][i]['command']['arguments'] = _PARAM.sub('%(zz)s', a, count=1)
-            yield 'unknown-parameter-reference', ['components', i], d
+        # every field of the component (any depth, lists included) that holds a parameter reference
+        for path in _string_leaves([], dict((k, v) for k, v in c.items() if k != 'signature')):
+            leaf = c
+            for k in path:
+                leaf = leaf[k]
+            if _PARAM.search(leaf):
+                d = clone()
+                cur = d['components'][i]
+                for k in path[:-1]:
+                    cur = cur[k]
+                cur[path[-1]] = _PARAM.sub('%(zz)s', leaf, count=1)
+                yield 'unknown-parameter-reference', ['components', i] + path, d
     if doc.get('entrypoint'):
         for k in sorted(doc['entrypoint']['execute'][0].get('args') or {}):
             d = clone()
@@ -643,7 +743,8 @@ def canon(doc):
 
 
 def base_items(thorough):
-    for fam in (family_multi, family_cycles, family_environments, family_prefix_names, family_literals,
+    for fam in (family_multi, family_cycles, family_every_field, family_entry_override, family_environments,
+                family_prefix_names, family_literals,
                 family_references, family_names):
         for it in fam(thorough):
             yield it
